@@ -56,6 +56,19 @@ let () =
        | SendModel.SendError -> "ERROR"
        | SendModel.SendOk ws -> if ws = [] then "EMPTY" else String.concat "," (Stdlib.List.map hex_of_bytes ws))
     | _ -> "ERR args");
+  (* GraphicsTerminal.send_command: termPh termDirect callPh callDirect pid filename(hex|-) filecontent(hex|-|NOFILE) layers maxsize toks...
+     -> OPENFAILED | ERROR | <print 0/1>;<writes , separated | EMPTY> *)
+  register "cmd.send_command" (fun a -> match a with
+    | tph :: tdi :: cph :: cdi :: pid :: fname :: fcontent :: n :: maxsize :: toks ->
+      let ob s = if s = "_" then None else Some (s = "1") in
+      let name = if fname = "-" then [] else bytes_of_hex fname in
+      let file nm = if fcontent = "NOFILE" then None else if nm = name then Some (if fcontent = "-" then [] else bytes_of_hex fcontent) else None in
+      (match SendCommand.send_command { SendCommand.tf_placeholders = (tph = "1"); SendCommand.tf_direct = (tdi = "1") } (ob cph) (ob cdi)
+               (num pid) file (template (int_of_string n)) (z_of_int (int_of_string maxsize)) (parse_cmd toks) with
+       | SendCommand.ScOpenFailed -> "OPENFAILED"
+       | SendCommand.ScRejected -> "ERROR"
+       | SendCommand.ScWritten (ws, pr) -> bool_s pr ^ ";" ^ (if ws = [] then "EMPTY" else String.concat "," (Stdlib.List.map hex_of_bytes ws)))
+    | _ -> "ERR args");
   (* Spec parse of one escape: "k:hex,k:hex;payloadhex" | "k:hex;NOPAYLOAD" | NONE *)
   register "cmd.spec_parse" (fun a -> match a with
     | [esc] ->
